@@ -19,7 +19,7 @@ BaseDocs == <<
 >>
 DocSeq == IF Big THEN BaseDocs \o MoreDocs ELSE BaseDocs
 Idx(l, i) == ETravArr(l, ECollect(ELit(IntV(i))))
-Claims == << ENul("GET_PATH"), ENul("GET_KEY"), ENul("GET_PARENT") >>
+Claims == << ENul("GET_PATH"), ENul("GET_KEY"), ENul("GET_PARENT"), [op |-> "GET_PARENT", level |-> 2], [op |-> "GET_PARENT", level |-> 0] >>
 Nodes == << ERecurse(FALSE), ERecurse(TRUE), EPath(A), EPipe(EPath(A), ESplat), Idx(EPath(A), 1), Idx(EPath(A), -1), EPipe(EPath(B), EPath(B)), ESplat,
             EPipe(EPipe(EPath(A), ESplat), EPath(A)), EPipe(EPath(A), ERecurse(FALSE)) >>
 \* the rebuilding operators (applied to .a or to the root)
